@@ -406,7 +406,18 @@ func runSQLite(args []string) {
 			}
 			q = "INSERT INTO t1 (" + strings.Join(explicitCols, ", ") + ") VALUES (" + strings.Join(vals, ", ") + ")"
 		}
-		stmt, err := sqlair.Prepare(q, reflect.Zero(st.t).Interface())
+		// a quarter of the inserts are preceded by a common table expression holding inputs of
+		// its own (unused by the insert: the hand-written twin needs nothing for it)
+		withCTE := cr.Chance(1, 4)
+		samplesI := []any{reflect.Zero(st.t).Interface()}
+		argsI := func(a any) []any { return []any{a} }
+		if withCTE {
+			q = "WITH c(v) AS (SELECT 1 WHERE 7 IN ($SIDs[:])) " + q
+			samplesI = append(samplesI, SIDs{})
+			argsI = func(a any) []any { return []any{SIDs{7, 8}, a} }
+			dist["insert-after-cte-with-inputs"]++
+		}
+		stmt, err := sqlair.Prepare(q, samplesI...)
 		if err != nil {
 			fail("C17", caseJSON, "Prepare rejected a well-typed insert: "+err.Error()+" / "+q, "")
 			sqldb.Close()
@@ -420,12 +431,12 @@ func runSQLite(args []string) {
 			for k := 0; k < nrows; k++ {
 				ps.Index(k).Set(rowsV.Index(k).Addr())
 			}
-			insErr = db.Query(ctx, stmt, ps.Interface()).Run()
+			insErr = db.Query(ctx, stmt, argsI(ps.Interface())...).Run()
 		case strings.HasPrefix(form, "bulk"):
-			insErr = db.Query(ctx, stmt, rowsV.Interface()).Run()
+			insErr = db.Query(ctx, stmt, argsI(rowsV.Interface())...).Run()
 		default:
 			for k := 0; k < nrows && insErr == nil; k++ {
-				insErr = db.Query(ctx, stmt, rowsV.Index(k).Interface()).Run()
+				insErr = db.Query(ctx, stmt, argsI(rowsV.Index(k).Interface())...).Run()
 			}
 		}
 		// expected rejections: an explicitly referenced omitempty member that is zero
